@@ -330,6 +330,16 @@ func (w *jWorld) makeClaim(src claimSrc, num, pos uint64) bridgesync.Claim {
 func (w *jWorld) addL2Block(ch choose.Chooser, nBridges int, claims []claimSrc) error {
 	num := w.l2next
 	w.l2next++
+	if !w.noJumps && len(w.l2blocks) > 0 && ch.Int(0, 11, "l2AlignedJump") == 11 {
+		// the next event block is a whole number of thousands of blocks after the block that follows an earlier one: a
+		// certificate range starts right after the block that was the newest when the previous certificate was built
+		base := w.l2blocks[len(w.l2blocks)-1-ch.Int(0, min(3, len(w.l2blocks)-1), "alignedBase")].Num
+		if t := base + 1 + uint64(choose.Pick(ch, []int{1, 1, 2, 3, 10}, "alignedThousands"))*1000; t > num {
+			num = t
+			w.l2next = num + 1
+			w.jumped = true
+		}
+	}
 	if ch.Int(0, 11, "l2NumberJump") == 11 && !w.noJumps {
 		w.jumped = true
 		// block numbers are not contiguous in the stores (blocks without events are not recorded): sometimes the next
